@@ -61,6 +61,8 @@ func transport.DialURLContext(ctx, url) (conn, err)
   call sync.(*Mutex).Unlock requires held: gLocked
   call sync.(*Mutex).Unlock set gLocked := false
   mapaccess requires lock-held: gLocked
+  # ... and so is every other look at the registry variable (the nil check and the allocation of the map)
+  globalaccess dialers requires registry-lock-held: gLocked
   call transport.ContextDialer.DialURLContext requires registered: haskey(dialers.m, url.Scheme) && same($0, dialers.m[url.Scheme]) && $2 == url
   # the registry lock is not held across the dial: a dialer may itself dial or register, and
   # other dials and registrations must not wait for this connection attempt
@@ -79,6 +81,8 @@ func transport.RegisterContextDialer(scheme, dialer) ()
   call sync.(*Mutex).Unlock requires held: gLocked
   call sync.(*Mutex).Unlock set gLocked := false
   mapaccess requires lock-held: gLocked
+  # ... and so is every other look at the registry variable (the nil check and the allocation of the map)
+  globalaccess dialers requires registry-lock-held: gLocked
   ensures unlocked: !gLocked
   ensures registered: haskey(dialers.m, scheme) && same(dialers.m[scheme], dialer)
 
@@ -89,6 +93,8 @@ func transport.UnregisterDialer(scheme) ()
   call sync.(*Mutex).Unlock requires held: gLocked
   call sync.(*Mutex).Unlock set gLocked := false
   mapaccess requires lock-held: gLocked
+  # ... and so is every other look at the registry variable (the nil check and the allocation of the map)
+  globalaccess dialers requires registry-lock-held: gLocked
   ensures unlocked: !gLocked
   ensures removed: !haskey(dialers.m, scheme)
 
